@@ -508,7 +508,7 @@ INVALID = {
                                        ("wrong-type", True), ("wrong-type", []), ("wrong-type", {})],
   ("stl_reader", "font_stack"): [("malformed", ""), ("malformed", ","), ("malformed", "  "), ("wrong-type", 5),
                                  ("wrong-type", True), ("wrong-type", []), ("wrong-type", ["Arial"]), ("wrong-type", {})],
-  ("stl_reader", "max_row_count"): [("unknown-keyword", "MAX"), ("unknown-keyword", ""), ("wrong-type", "23"),
+  ("stl_reader", "max_row_count"): [("out-of-range", 0), ("out-of-range", -1), ("unknown-keyword", "MAX"), ("unknown-keyword", ""), ("wrong-type", "23"),
                                     ("wrong-type", 2.5), ("wrong-type", True), ("wrong-type", []), ("wrong-type", {})],
   ("srt_writer", "text_formatting"): _BOOL_BAD,
   ("vtt_writer", "line_position"): _BOOL_BAD,
